@@ -20,8 +20,9 @@ BIG = 16_384_001
 A_SIZES = [20000, 40000]
 
 FS_OPS = ["add:n", "del:n", "del:b", "grow:a", "shrink:a", "rewrite:b",
-          "biggrow:a"]
+          "biggrow:a", "resize:solo"]
 LIB_OPS = ["create:1", "create:2", "create:3", "create:auto", "create:cliq",
+           "create:1:solo", "create:2:solo", "create:3:solo",
            "edit", "recheck", "rebuild", "magnet"]
 
 
@@ -38,11 +39,12 @@ class FakeDatetime:
 # ------------------------------------------------------------ sandbox model
 
 def initial_model():
-    return {"a": ("size", 0), "b": 0, "n": False, "b_present": True}
+    return {"a": ("size", 0), "b": 0, "n": False, "b_present": True,
+            "solo": 0}
 
 
 def fs_enabled(m):
-    ops = []
+    ops = ["resize:solo"]
     ops.append("add:n" if not m["n"] else "del:n")
     if m["b_present"]:
         ops += ["del:b", "rewrite:b"]
@@ -71,6 +73,8 @@ def fs_apply_model(m, op):
         m["a"] = ("size", 0)
     elif op == "biggrow:a":
         m["a"] = ("big", 0)
+    elif op == "resize:solo":
+        m["solo"] = 1 - m.get("solo", 0)
     return m
 
 
@@ -101,6 +105,11 @@ def write_model(S, m, seed):
                 f.write(data)
     elif os.path.exists(pb):
         os.remove(pb)
+    solo = os.path.join(S, "solo")
+    want_solo = [20000, 2 * P0 + 1][m.get("solo", 0)]
+    if not os.path.exists(solo) or os.path.getsize(solo) != want_solo:
+        with open(solo, "wb") as f:
+            f.write(world.content(seed, 30, want_solo))
     pn = os.path.join(root, "n")
     if m["n"] and not os.path.exists(pn):
         with open(pn, "wb") as f:
@@ -214,6 +223,8 @@ def do_lib_op(op, S):
     try:
         if op.startswith("create:"):
             v = op.split(":")[1]
+            if op.endswith(":solo"):
+                root = os.path.join(S, "solo")
             if v == "1":
                 tf.torrent.TorrentFile(path=root, piece_length=P0,
                                        outfile=mpath, progress=0).write()
@@ -238,15 +249,15 @@ def do_lib_op(op, S):
                 return ("metafile", strip_date(f.read()))
         if op == "recheck":
             return ("percent", float(tf.recheck.Checker(mpath,
-                                                        root).results()))
+                                                        S).results()))
         if op == "magnet":
             return ("magnet", tf.commands.magnet(mpath))
         if op == "rebuild":
             dest = os.path.join(S, "dest")
             os.mkdir(dest)
             try:
-                n = tf.rebuild.Assembler([mpath], [root],
-                                         dest).assemble_torrents()
+                n = tf.rebuild.Assembler([mpath], [root, os.path.join(
+                    S, "solo")], dest).assemble_torrents()
                 snap = canon_sandbox(dest)
             finally:
                 shutil.rmtree(dest, ignore_errors=True)
@@ -319,12 +330,14 @@ class HistoryCheck:
     def __init__(self):
         self.zyg = None
         self.assumptions = [
-            "alphabet: create v1/v2/hybrid (explicit P), create v1 (automatic "
-            "P), CLI -q create, edit, recheck, rebuild, magnet, and the "
+            "alphabet: create v1/v2/hybrid (explicit P) of a directory root "
+            "and of a single-file root, create v1 (automatic P), CLI -q "
+            "create, edit, recheck, rebuild, magnet, and the "
             "filesystem actions add / delete / grow / shrink / rewrite a file "
             "and one growth step to 16 384 001 bytes (sparse) that moves the "
             "automatic piece length",
-            "one content root with files from {a, d/b, n}, one metafile slot",
+            "a directory root with files from {a, d/b, n} (mutated by the "
+            "filesystem actions), a fixed single-file root, one metafile slot",
             "depth 3 (quick) / 5 (thorough); states deduplicated on "
             "(canonical sandbox, canonical process state) where the process "
             "state is an introspective scan of every module- and class-level "
